@@ -5,6 +5,26 @@ from . import builder_contracts as bc
 from . import parser_contracts as pcx  # noqa: F401  (assumed view of the base: ArgsFormat.get_option, fmt_opt)
 
 F = bc.F
+
+# ---------------------------------------------------------------- the finished format mirrors the builder's lookups
+# ArgsFormat.has_option / has_command_option / get_option / get_command_option are verified, one level of the base chain
+# at a time, against the same unfolding that the lookups of the builder are verified against (builder_contracts): the own two tables first,
+# then the base format seen through its (uninterpreted, fixed) view.  These are variant contracts: they are proved of the
+# real bodies and never used at a call site (callers keep seeing the format through the views), so the views are not
+# assumed to satisfy anything new -- what is proved is that the code computes the view of a format from its own tables
+# and the view of its base exactly as the builder does (C06: "the finished format answers every query as the builder did").
+R.shape("ArgsFormat", _base_format="ref ArgsFormat?",
+        _options="dict[str,ref Option]", _options_by_short_name="dict[str,ref Option]",
+        _command_options="dict[str,ref CommandOption]", _command_options_by_short_name="dict[str,ref CommandOption]")
+R.uf("fmt_copt", ["ref ArgsFormat", "str"], "ref CommandOption")
+MIRROR = []
+for _meth, _t1, _t2, _uf in (("has_option", "_options", "_options_by_short_name", "base_has_option"),
+                             ("has_command_option", "_command_options", "_command_options_by_short_name", "base_has_command_option")):
+    _c = R.contract(F + _meth, variant="mirror", params={"name": "str", "include_base": "bool"}, returns="bool",
+                    ensures=["result == ((name in self.%s) or (name in self.%s) or %s)" % (_t1, _t2, bc.BASE % _uf)], modifies=[])
+    _c.defaults = {"include_base": True}
+    MIRROR.append({"qual": F + _meth, "tag": "mirror"})
+
 R.contract(
     F + "get_command_option", params={"name": "str", "include_base": "bool"}, returns="ref CommandOption",
     ensures=["base_has_command_option(self, name)", "result is fmt_copt(self, name)"],
@@ -12,7 +32,6 @@ R.contract(
     modifies=[], assumed=True, note="lookup in the (finished, immutable) base format, seen through its views",
 ).defaults = {"include_base": True}
 
-MIRROR = list(bc.MIRROR)
 for _meth, _t1, _t2, _has, _get in (
         ("get_option", "_options", "_options_by_short_name", "base_has_option", "fmt_opt"),
         ("get_command_option", "_command_options", "_command_options_by_short_name", "base_has_command_option", "fmt_copt")):
